@@ -4,6 +4,7 @@ cast, constructor, swizzle, second forwarded pair, store of a forwarded value), 
 that are parameters, locals and globals of scalar / vector / matrix / struct / array type; and
 constant casts in every position a literal can take.  These programs need no reference
 semantics (the unoptimised build is the reference), so float -> int narrowing may occur."""
+import re
 from . import Item, from_text
 
 
@@ -193,6 +194,18 @@ def constant_casts():
             _t(f"export function f(int a, float b, int n) -> {T} {{ {T} r = {zero}; for (int i = 0; i < n; ++i) {{ {T} t; r += t; t = {v}; }} return r; }}", f"{T}: store at the end of a loop body, redeclared at its start", ["loop"], {"n": (0, 3)}),
             _t(f"export function f(int a, float b) -> {T} {{ {T} r = {zero}; if (a > 0) {{ {T} t; t = {v}; }} {{ {T} t; r = t; }} return r; }}", f"{T}: store in a branch, sibling redeclaration, load"),
             _t(f"{T} g;\nexport function f(int a, float b) -> {T} {{ {{ {T} g2; g2 = {v}; g = g2; }} {{ {T} g2; g += g2; }} return g; }}", f"{T}: store to local and global, local redeclared"),
+        ]
+    # --- a store into a variable of another scalar type, read back at once: whatever a store does to the value (nothing, today), the
+    #     forwarded value must have had the same done to it
+    for decl, src_t, expr, use in (("int h", "float", "a * 0.5", "h"), ("int h", "float", "a", "h + 1"), ("int h", "float", "a", "h * 2 / 3"), ("uint u", "int", "a", "u + 1"),
+                                   ("uint u", "int", "a - 4", "u / 2"), ("float x", "int", "a", "x / 2"), ("float x", "int", "a * 3", "x * 0.5 + 1.0"), ("int h", "uint", "a", "h - 1")):
+        T = decl.split()[0]
+        v = decl.split()[1]
+        rt = "float" if (T == "float" or src_t == "float") else "int"
+        out += [
+            _t(f"export function f({src_t} a) -> {rt} {{ {decl} = {expr}; return {use}; }}", f"initialiser of another type: {decl} = {expr} ({src_t})", ["narrow"]),
+            _t(f"export function f({src_t} a) -> {rt} {{ {decl}; {v} = {expr}; return {use}; }}", f"assignment of another type: {decl}; {v} = {expr} ({src_t})", ["narrow"]),
+            _t(f"{T} gg;\nexport function f({src_t} a) -> {rt} {{ gg = {expr}; return {re.sub(chr(92) + 'b' + v + chr(92) + 'b', 'gg', use)}; }}", f"global of another type: {decl} = {expr} ({src_t})", ["narrow"]),
         ]
     S = "struct S { int i; float f; }\n"
     out += [
